@@ -20,11 +20,12 @@ for d in sorted(glob.glob(os.path.join(VERIF, "seeded", "*"))):
     und = [p for p, r in chk.items() if r.get("rc") == 0]
     clauses = sorted({v.split("key=")[1].split(" ")[0].split("|")[1] for r in chk.values() for v in r.get("violations", []) if "key=" in v and "|" in v.split("key=")[1]})
     suite = steps.get("suite", {})
-    rows.append((os.path.basename(d), m.get("property"), (m.get("summary") or "")[:150].replace("|", "/").replace("\n", " "),
+    rows.append((os.path.basename(d), m.get("property"), (m.get("summary") or "")[:110].replace("|", "/").replace("\n", " "),
                  "yes" if steps.get("demo_clean", {}).get("ok") and steps.get("demo_mutated", {}).get("ok") else "NO",
                  (("pass" if suite.get("ok") else "lost %s" % suite.get("n_lost")) + " (%s)" % suite.get("scope", "full")) if suite else "not run",
                  ("**detected** by %s (%s)" % (",".join(det), ", ".join(clauses)[:90]) if det else
-                  ("not detected (%s quick)" % ",".join(und) if und else "check not run / machinery"))))
+                  ("not detected (%s quick)" % ",".join(und) if und else "check not run / machinery")) +
+                 (" — confirmed against %s; patch superseded by a later fix, see meta.json" % c.get("repo_head") if m.get("superseded") else "")))
     if "--write-meta" in sys.argv and c:
         m["confirmation"] = {"tool": "tools/seed_confirm.py (scratch worktree of /repo HEAD %s; demo on clean and changed tree; "
                                      "test suite vs BASELINE.stable_pass; ./check with VERIF_REPO)" % c.get("repo_head"),
